@@ -134,26 +134,43 @@ def pcr (prepare : Out) (commit rb : Opt) (c : Cancel) : Result :=
 
 /-! ### the same combinator over arbitrary step bodies -/
 
-/-- a step body: sees its context kind, transforms the world `σ`, returns nil (`true`) or an error -/
-abbrev Body (σ : Type) := Ctx → σ → Bool × σ
+/-- what a body can learn from its context: "is it cancelled at time `t`?" -/
+abbrev View := Nat → Bool
+
+/-- the view a context of kind `k` offers when the caller cancels at `c` -/
+def view (k : Ctx) (c : Cancel) : View := fun t => k.cancelledAt c t
+
+/-- a step body: receives its context (kind + what it can observe of it), transforms the world `σ`,
+returns nil (`true`) or an error -/
+abbrev Body (σ : Type) := Ctx → View → σ → Bool × σ
 
 /-- one invocation of a body: which step, with which context, with which `failureByCond` flag -/
 abbrev Inv := Step × Ctx × Option Bool
 
-/-- `utils.Txn` over arbitrary bodies (`true` = returned nil).  Returns which error is returned, the
-invocations made (in order) and the final world. -/
-def txnM {σ : Type} (cond : Body σ) (thn : Option (Body σ)) (rb : Option (Bool → Body σ)) (s : σ) : Ret × List Inv × σ :=
-  let (condOk, s1) := cond .txn s
+/-- `utils.Txn` over arbitrary bodies (`true` = returned nil) when the caller cancels at `c`.
+Returns which error is returned, the invocations made (in order) and the final world. -/
+def txnM {σ : Type} (cond : Body σ) (thn : Option (Body σ)) (rb : Option (Bool → Body σ)) (c : Cancel) (s : σ) :
+    Ret × List Inv × σ :=
+  let (condOk, s1) := cond .txn (view .txn c) s
   let thenCtx : Ctx := if rb.isNone then .inherit else .txn
   let (thenFailed, tr2, s2) : Bool × List Inv × σ :=
     match condOk, thn with
-    | true, some f => let (ok, s') := f thenCtx s1; (!ok, [(.thn, thenCtx, none)], s')
+    | true, some f => let (ok, s') := f thenCtx (view thenCtx c) s1; (!ok, [(.thn, thenCtx, none)], s')
     | _, _ => (false, [], s1)
   let ret : Ret := if !condOk then .condErr else if thenFailed then .thenErr else .nil
   let tr := (Step.cond, Ctx.txn, none) :: tr2
   if ret = .nil then (ret, tr, s2) else
   match rb with
   | none => (ret, tr, s2)
-  | some f => (ret, tr ++ [(.rollback, .inherit, some (!condOk))], (f (!condOk) .inherit s2).2)
+  | some f => (ret, tr ++ [(.rollback, .inherit, some (!condOk))], (f (!condOk) .inherit (view .inherit c) s2).2)
+
+/-- the effect on the world of the body an invocation names -/
+def applyInv {σ : Type} (cond : Body σ) (thn : Option (Body σ)) (rb : Option (Bool → Body σ)) (c : Cancel)
+    (s : σ) (i : Inv) : σ :=
+  match i with
+  | (.cond, k, _) => (cond k (view k c) s).2
+  | (.thn, k, _) => match thn with | some f => (f k (view k c) s).2 | none => s
+  | (.rollback, k, some b) => match rb with | some f => (f b k (view k c) s).2 | none => s
+  | (.rollback, _, none) => s
 
 end Eru.Txn
